@@ -245,6 +245,11 @@ def check_property(pid, tier, seed):
                 continue
             if f["attrib"] == "other":
                 continue
+            if spec.get("fail_undecided"):
+                # the obligation ties the code to one reference function; code that computes another function may still
+                # satisfy the property, so a failure here is "undecided" and the bounded stand-in takes over
+                undecided.append("%s: %s: %s (%s)" % (tag, spec["fail_undecided"], name, kind))
+                continue
             all_fail.append(f)
             failed_names.add(name)
         n_obl += len(names) + verified + errors
@@ -430,7 +435,9 @@ def main():
         print("UNDECIDED: %s" % u)
     if standin:
         print("PROOF-UNDECIDED property=%s: bounded stand-in held on %d registration sequences (%d distinct non-trivial); level=bounded, not proved" % (pid, bounded["explored"], bounded["distinct"]))
-    if status == 0:
+    if status == 0 and standin:
+        print("OK-BOUNDED property=%s (proof undecided on this tree; verdict rests on the bounded stand-in)" % pid)
+    elif status == 0:
         print("OK property=%s obligations=%d discharged=%d runs=%d wall=%.1fs" % (pid, res["obligations"], discharged, len(res["runs"]), res["wall"]))
     return status
 
